@@ -8,6 +8,13 @@ def hook_commits():
     return [l.split()[0] for l in out.splitlines() if "verif hook" in l]
 
 CLAIMED = {
+ "C18": dict(
+   level="exploration",
+   text="One block with n ordered zero-fee payments of which a chosen subset pays the light client's key: every (n, pattern) for n = 0..6/8 enumerated first, then random n <= 24/40 with 0-2 extra listed keys. The lite block is produced by the same core calls as the fetch route and checked before and after the wire: id, hash, signature and every header field equal the full block's; every transaction touching a listed key is carried unmodified; hash unchanged by the wire; merkle root recomputable from the lite block's own transactions. In a fraction of the runs a real SPV node performs handshake, ghost-chain request and lite-block fetch against a real full node and must end up storing the block under the advertised hash.",
+   design="§6 C18",
+   note="Reduced scope (DESIGN §7): the quantifier over blocks/key lists is enumerated only for the small space and sampled beyond. Fetch route is a stub re-using the core calls of saito-rust's warp route.",
+   technique="deterministic simulation: full node + SPV node over a simulated lite-block fetch route, projection monitor; enumerated touch patterns"),
+
  "C19": dict(
    level="exploration",
    text="Producer chain (genesis period 4..8 or 100) feeding a wallet node (real Blockchain + Wallet): 5..40/150 seeded events (payments to the wallet key, transactions built through Transaction::create / create_with_multiple_payments with random, total, excessive and zero amounts, confirmation, delay, dropping, a competing fork that un-confirms, window expiry with rebroadcast). After every event: balance == sum of unspent slips, every unspent key in the slip table; until the first reorganisation the unspent set equals the reference ledger's in-window outputs of the key minus inputs committed to pending wallet transactions; every wallet-built transaction has distinct inputs, outputs <= inputs (u128) and validates against the ledger it was built on.",
